@@ -62,7 +62,7 @@ func (e *SExpr) String() string {
 			s += e.Args[2].String()
 		}
 		return s + "]"
-	case "sel":
+	case "sel", "tupsel":
 		return e.Args[0].String() + "." + e.Name
 	case "quant":
 		var vs []string
@@ -394,6 +394,10 @@ func (p *sparser) postfix() *SExpr {
 		switch {
 		case p.accept("."):
 			t := p.next()
+			if t.k == "int" {
+				e = &SExpr{Kind: "tupsel", Name: t.s, Args: []*SExpr{e}}
+				continue
+			}
 			if t.k != "ident" {
 				p.fail("expected field name after '.'")
 			}
